@@ -115,7 +115,15 @@ def run(sim, plan):
     received = bytearray()
     accepted = bytearray()     # every byte the endpoint's socket accepted from send(), in order
     state = {"eof": None, "sock": None}
-    net.taps.append(lambda side, conn_id, chunk: accepted.extend(chunk) if side == ep_side["s"] else None)
+    accepted_raw = bytearray()  # ... of these, the bytes written by the scenario's own raw sender thread
+
+    def _tap(side, conn_id, chunk):
+        if side == ep_side["s"]:
+            accepted.extend(chunk)
+            if k.current.name.endswith("app_sender"):
+                accepted_raw.extend(chunk)
+
+    net.taps.append(_tap)
     ep_side = {"s": "client" if active else "server"}
 
     def attach(sock):
@@ -300,13 +308,10 @@ def run(sim, plan):
         ok_acc = acc.startswith(ok_concat)
         if not ok_acc:
             # the endpoint's own close sequence (Separate.req, written by the protocol thread when the peer half-closes)
-            # may land between two partial writes of the scenario's raw send_data call: two writers on one socket is the
-            # harness's doing on this path, not the transport's
-            i = acc.find(b"\x00\x00\x00\x0a")
-            while i >= 0 and not ok_acc:
-                if len(acc) >= i + 14 and acc[i + 9] == rc.SEPARATE_REQ:
-                    ok_acc = (acc[:i] + acc[i + 14:]).startswith(ok_concat)
-                i = acc.find(b"\x00\x00\x00\x0a", i + 1)
+            # may land between two partial writes of the scenario's raw send_data call, in pieces when writes are short:
+            # two writers on one socket is the harness's doing on this path, not the transport's - judge the bytes the
+            # sender thread itself handed to the socket
+            ok_acc = bytes(accepted_raw).startswith(ok_concat)
         if not ok_acc:
             sim.violation("C10.R2", f"sends reported successful carry {len(ok_concat)} bytes, but the socket accepted only "
                           f"{len(acc)} payload bytes (or different ones): success was reported for bytes that were never "
